@@ -104,6 +104,9 @@ var c14Statements = []string{
 	"yin-element false;",
 	"hostm:extx \"arg\";",
 	"hostm:extx;",
+	"hostm:extx \"arg\" { leaf el { type hostm:tdy; } }",
+	"hostm:extx \"arg\" { leaf el { type leafref { path \"/hostm:c/hostm:cl\"; } } container ec { uses gx; } }",
+	"hostm:extx \"arg\" { hostm:extx \"in\" { leaf el { type string; } } typedef et { type int8; } }",
 }
 
 // hosts: a module text with one slot per kind of block.
@@ -270,7 +273,7 @@ func c14Targets() []*load.Case {
 
 func c14Matrix(twice bool) []*load.Case {
 	const pre = "module hostm { yang-version 1.1; namespace \"urn:hostm\"; prefix hostm; "
-	const common = " extension extx { argument a; } feature fx; feature fy; identity idx; grouping gx { leaf gxl { type string; } } grouping gc { container gcc { leaf gcl { type string; } } } leaf lx { type string; } container c { leaf cl { type string; } } }"
+	const common = " extension extx { argument a; } typedef tdy { type string; } feature fx; feature fy; identity idx; grouping gx { leaf gxl { type string; } } grouping gc { container gcc { leaf gcl { type string; } } } leaf lx { type string; } container c { leaf cl { type string; } } }"
 	files := map[string]string{
 		"impx": "module impx { namespace \"urn:impx\"; prefix ix; typedef t { type string; } grouping g { leaf x { type string; } } }",
 		"incx": "submodule incx { belongs-to hostm { prefix hm; } leaf incl { type string; } }",
